@@ -326,4 +326,4 @@ def cases(tier):
 ASSUMPTIONS = ["floats are treated as real arithmetic (rounding at margin boundaries is not modelled)",
                "search loops are cut: the loop variable is havocked inside its declared range (range()/clkdiv_range contract), flags carry the invariant 'not yet valid at loop head'; soundness needs only the returning iteration",
                "completeness ('refused only if no setting exists') and instance parameters are bounded stand-ins on enumerated requests (labelled, not counted as proved)",
-               "ECP5PLL: symbolic proof (1 output) in the thorough tier only (~10 min of nonlinear real arithmetic); quick tier: bounded instance check; not covered: USPMMCM (overrides compute_config with a fractional-multiplier search), NXPLL, Intel, Gowin, Efinix, CologneChip helpers (tier 2)"]
+               "ECP5PLL: symbolic proof (1 output) in the thorough tier only (~10 min of nonlinear real arithmetic); quick tier: bounded instance check; USPMMCM, NXPLL, Intel, Gowin, Efinix (bounded), CologneChip helpers are in C20_clocks_ext.py"]
